@@ -6,6 +6,7 @@ MODULES = {
     "rueidiscompat": {"dir": "rueidiscompat", "harness": "rueidiscompat", "package": "rueidiscompat"},
     "rueidisaside": {"dir": "rueidisaside", "harness": "rueidisaside", "package": "rueidisaside"},
     "rueidislock": {"dir": ".", "pkgdir": "rueidislock", "harness": "rueidislock", "package": "rueidislock"},
+    "om": {"dir": "om", "harness": "om", "package": "om"},
     "rueidisprob": {"dir": "rueidisprob", "harness": "rueidisprob", "package": "rueidisprob"},
 }
 
@@ -762,6 +763,49 @@ CHECKS = {
             "s2c deliveries end at frame boundaries (one reply or push per step) and goroutines parked under one identical identity are released together: both are needed "
             "because rueidislock reacts to pushes on several goroutines at once",
             "server and client share one clock (no clock offset between Lockers and Redis)",
+        ],
+    },
+    "C40": {
+        "level": "exploration",
+        "rule": ("one run = one seeded plan on package om: a HashRepository or JSONRepository (entity structs with one field of every type conv.go accepts - string, int64, "
+                 "bool, pointers to them, []byte, json.RawMessage, []float32, []float64, struct / *struct / []struct / time.Time / a json.Marshaler through encoding/json - "
+                 "or, for JSON, every type encoding/json round-trips, plus key, version and expiry fields) on 1-2 real rueidis clients with or without client-side caching "
+                 "(RESP3 or forced RESP2); 1-2 entities that exist or not at the start (first version 0..99999999999990); 2-6 tasks each doing 2-6 of Fetch / FetchCache (TTL 50 ms..60 s) / "
+                 "Save, where Save regenerates EVERY field from a salt (edge values: empty and binary strings with CR LF NUL and RESP look-alikes, 't'/'f', 3 kB strings, min/max "
+                 "integers, -0, max/min/denormal floats, NaN and infinities in hash vectors, nil vs empty slices and maps, nil pointers, zero and year-9999 times) on a copy of the "
+                 "entity last fetched (so two Saves without a fetch in between are based on the same version), on the very object a previous Save advanced, or on a fresh "
+                 "entity with version 0; 0-3 ghost writers (content change + version bump of 1-2, DEL, SCRIPT FLUSH); reply cuts; in a third of the plans 1-2 connection faults "
+                 "(reset, EOF, reset after execution, EOF mid-reply, 30 s stall, node restart with lost script cache and refused dials) on connections that carry user traffic. The save scripts run for real in fakeredis+lualite; each execution is "
+                 "attributed to its Save call by a unique tag. Reference: a versioned register per key advanced in the server's execution order. Oracle: (a) an execution on an "
+                 "existing key succeeds iff stored version == version of the entity passed to Save; Save returns nil iff its execution succeeded and ErrVersionMismatch iff it was "
+                 "refused; at most one Save returns nil per stored version instance; (b) a successful execution answers base+1, the entity passed to Save carries base+1 "
+                 "afterwards, and the raw record read back after every step that ran a script, decoded with the repository's own decoder, equals the saved entity in every "
+                 "field with version base+1; (c) Fetch returns an entity equal to a reference state current at some step of the call, FetchCache one equal to some reference "
+                 "state, and once every reply and push is delivered and nothing runs both return the latest state; "
+                 "non-trivial = at least one stored version instance had two or more Save executions against it; distinct = distinct event-log hash"),
+        "parts": [
+            {"module": "om", "scenario": "om", "variant": "json", "quick": 6000, "thorough": 500000},
+            {"module": "om", "scenario": "om", "variant": "hash", "quick": 6000, "thorough": 500000},
+            {"module": "om", "scenario": "om", "variant": "hash,clearptr", "quick": 400, "thorough": 15000},
+            {"module": "om", "scenario": "om", "variant": "hash,alias", "quick": 400, "thorough": 15000},
+        ],
+        "expected_probes": ["contended-version", "version-mismatch-returned", "chained-save-on-advanced-version", "noscript-fallback", "script-flush-ghost",
+                            "ghost-bumped-version", "ghost-deleted-entity", "cache-hit-served", "cached-read-older-than-current", "read-saw-a-workload-save",
+                            "save-failed-but-applied", "save-failed-and-refused", "fault-fired", "reply-cut"],
+        "components": {"real": "package github.com/redis/rueidis/om (repositories, converters, schema, both Lua save scripts) and github.com/redis/rueidis built from /repo's working tree with -tags verif",
+                       "stubs": dict(STUBS, **{"lua interpreter": "verifsim/lualite runs the save scripts; RedisJSON subset of verifsim/fakeredis (JSON.GET/SET/NUMINCRBY)"})},
+        "assumptions": [
+            "a Save that returned a transport error is not judged for its return value; whether it was applied is taken from the server's log (both are allowed)",
+            "a Save on a key that does not exist may succeed or be refused (the property speaks of saves based on a stored version); when it succeeds the version must still be base+1",
+            "equality is field-by-field: floats equal when bit-identical or ==, times by Equal; nil and empty differ, except for top-level []byte / []float32 / []float64 of a hash record (a hash field cannot tell them apart and the package does not say which comes back)",
+            "JSON entities: strings are valid UTF-8, floats finite (encoding/json refuses the rest), unsigned values <= MaxInt64 (the model keeps larger integers as floats); hash entities: nested struct fields obey the same limits, top-level strings and bytes are arbitrary",
+            "HashRepository.toExec ranges over a Go map, so the argument order of a hash Save differs from process to process; nothing else does: the scheduler log omits the request content hash for hash plans (sched.Config.NoPayloadHash) and the scenario logs every script call in canonical (sorted) form instead",
+            "versions stay below 1e14 in the registered parts: Lua formats larger numbers as 1e+14 (variant bigver demonstrates what happens then)",
+            "FetchCache freshness while writes are in flight is C06's subject; here a cached read may be any stored state, and must be the latest one only at rest",
+            "SaveMulti, verless entities, expiry that fires during the run and RediSearch calls are not exercised; ghost writers only ever increase the version (no ABA)",
+            "part 3 (hash,clearptr) lets top-level pointer fields of a hash entity go from a value back to nil; the other parts keep the nil-ness of each such field fixed per run so that what part 3 shows (rule nil-pointer-field-kept-old-value) does not mask anything else",
+            "part 4 (hash,alias) adds callers that edit the byte slices of a fetched entity in place before building their next Save from a copy (call kind scribble); what it shows is reported under rule fetched-entity-shares-memory-with-cache",
+            "plans with connection faults run the clients on the flow-buffer queue, the others on the ring or the flow buffer; a connection is eligible for a fault once it has carried a user command; the clean-up loop of a dead pipe spins for real (bounded) before it polls in simulated time (rueidis.VerifCleanupSpinBudget); the default RetryDelay is replaced by a jitter-free one; the log hash covers set-up, workload and final reads but not client.Close - each of these removes a race inside rueidis' teardown paths that the Go runtime, not the scheduler, decides (see the comments in scen_om_test.go)",
         ],
     },
 }
